@@ -10,7 +10,7 @@ EXPLANATION = (
     "float classes with refinement on is_nan); that normalize_value returns 0.0 without a range, range.normalize(value) with "
     "one and the plain cast when disabled; that each of the four channels consults its own limits pair first and falls back "
     "to the data type of its own record only when the limits yield no range (helper calls are summarised with their "
-    "arguments substituted); and that the data-type ranges are the documented ones. Not decided: the exact value "
+    "arguments substituted); and that the data-type ranges are the documented ones. Limit values are parsed with the type of their variant. Not decided: the exact value "
     "(value-min)/(max-min), monotonicity and 0/1 at the ends — numeric facts that need a relational argument.")
 
 
